@@ -8,7 +8,7 @@ From HL7 Require Import Lib.Str Model.Ec Model.Escape Model.Result Model.Ref Mod
   Model.Leaf Model.Wf Model.Dump.
 From HL7 Require Import Gen.Params Gen.Tables.
 From HL7 Require Import Proofs.EscapeFacts Proofs.SplitJoin Proofs.LevelCodec Proofs.RoundTripStr Proofs.RoundTripCore
-  Proofs.RoundTripVT Proofs.RoundTripZ Proofs.RoundTripTables.
+  Proofs.RoundTripVT Proofs.RoundTripZ Proofs.RoundTripTables Proofs.RoundTripSeg Proofs.RoundTripSegTables.
 Import ListNotations.
 Open Scope bs_scope.
 
@@ -124,3 +124,160 @@ Example C01_Z_example_text :
    | Ok s => enc_segment Gen.Tables_v2_5.tables default_ec s false
    | Err x => Err x end) = Ok (unbs "Z0B|a^b&c\T\d^^d~~x||^^&y z").
 Proof. split; vm_compute; reflexivity. Qed.
+
+(* ---- table-defined segments of every supported version (ANYHL7SEGMENT is not a segment; MSH is
+   excluded here) ----
+   The canonical lines are described on the text: the field texts fs (at most as many as the
+   segment defines, the last one not empty) contain no field separator or CR, and each one is
+   empty or - not blank and - every repetition of it satisfies the condition that the table row of
+   that position imposes (rep_text_ok):
+     base-typed field b      : every leaf is fixed by the leaf encoder of b;
+     varies field            : every leaf is fixed by the ST encoder;
+     field of struct type D  : at most as many components as D defines, the last one not empty,
+                               every non-empty component not blank and, by its own row in D,
+                               either base-typed (leaves fixed) or of a flat struct type D2: at
+                               most as many subcomponents as D2 defines, the last one not empty,
+                               each empty or not blank and fixed by the encoder of its datatype. *)
+Theorem C01_segment_text : forall v t, tables_of v = Some t ->
+  forall e, ec_ok e ->
+  forall sn r, In (sn, r) (t_segments t) -> sn <> unbs "ANYHL7SEGMENT" -> sn <> unbs "MSH" ->
+  exists srows, r = SSeqIn false srows None /\
+  forall fs : list str, no_trail fs -> length fs <= length srows ->
+    (forall i f, In (i, f) (indexed fs) -> tfield_text t e (leaf_enc v TOLERANT e) srows i f) ->
+    let text := bjoin (fsep e) (sn :: fs) in
+    exists s, parse_segment t TOLERANT e (leaf_enc v TOLERANT e) text None = Ok s /\
+              enc_segment t e s false = Ok text.
+Proof.
+  intros v t Ht e He sn r Hin Ha Hm.
+  destruct (shipped_table_facts v t Ht) as [Hst [Hvar _]].
+  destruct (shipped_segment_ok v t sn r Ht Hin Ha Hm) as [Hl [srows [-> [H3 [Hup [Hmsh [Hz [Hc Hrows]]]]]]]].
+  exists srows. split; [reflexivity|]. intros fs Hn Hlen Hf text.
+  destruct (seg_table_roundtrip t e (leaf_enc v TOLERANT e) He Hst Hvar sn srows fs H3 Hup Hmsh Hz Hl Hc Hrows Hn Hlen Hf)
+    as [s [gs [Hp [_ [_ Henc]]]]].
+  exists s. split; assumption.
+Qed.
+Print Assumptions C01_segment_text.
+
+(* the hypotheses hold for a real, non-trivial PID line of v2.5 (empty middle fields, a repeated
+   CX field with a subcomponent-structured HD component and an empty middle subcomponent, an empty
+   leading component, an XPN with a four-part FN): decided by the boolean form of the conditions *)
+Definition pid_rows : list srow :=
+  match slookup "PID" (t_segments Gen.Tables_v2_5.tables) with Some (SSeqIn _ rows _) => rows | _ => [] end.
+Definition pid_fields : list str := bsplit "|" "1||a^^^x&&z~^b&c||n1&n2&n3&n4^g".
+
+Example C01_segment_text_example :
+  let t := Gen.Tables_v2_5.tables in
+  let lf := leaf_enc "2.5" TOLERANT default_ec in
+  In (unbs "PID", SSeqIn false pid_rows None) (t_segments t) /\
+  no_trail pid_fields /\ length pid_fields <= length pid_rows /\
+  (forall i f, In (i, f) (indexed pid_fields) -> tfield_text t default_ec lf pid_rows i f) /\
+  bjoin (fsep default_ec) (unbs "PID" :: pid_fields) = unbs "PID|1||a^^^x&&z~^b&c||n1&n2&n3&n4^g".
+Proof.
+  cbv zeta. split.
+  - apply (slookup_in "PID"). vm_compute. reflexivity.
+  - assert (L : line_okb Gen.Tables_v2_5.tables default_ec (leaf_enc "2.5" TOLERANT default_ec) pid_rows pid_fields = true)
+      by (vm_compute; reflexivity).
+    apply line_okb_sound in L. destruct L as [A [B C]]. split; [exact A|]. split; [exact B|]. split; [exact C|].
+    vm_compute. reflexivity.
+Qed.
+
+(* ---- the same on canonical VALUE TREES within the table's counts ----
+   vt : fields -> repetitions -> components -> subcomponent texts.
+   canon_fields e (fun _ => True) vt : no trailing empty entry at any level, every leaf free of
+     delimiters and CR and either empty or not blank.
+   wt_field t e leaf srows i vf : the field value vf respects what row i of the segment defines -
+     counts of components / subcomponents, and every leaf is a fixed point of the leaf encoder of
+     the datatype of its own position (leaf_at). *)
+Theorem C01_segment : forall v t, tables_of v = Some t ->
+  forall e, ec_ok e ->
+  forall sn r, In (sn, r) (t_segments t) -> sn <> unbs "ANYHL7SEGMENT" -> sn <> unbs "MSH" ->
+  exists srows, r = SSeqIn false srows None /\
+  forall vt : list vfield,
+    canon_fields e (fun _ => True) vt -> length vt <= length srows ->
+    (forall i vf, In (i, vf) (indexed vt) -> wt_field t (leaf_enc v TOLERANT e) srows i vf) ->
+    let text := render_seg e sn vt in
+    exists s, parse_segment t TOLERANT e (leaf_enc v TOLERANT e) text None = Ok s /\
+              enc_segment t e s false = Ok text.
+Proof.
+  intros v t Ht e He sn r Hin Ha Hm.
+  destruct (shipped_table_facts v t Ht) as [Hst [Hvar _]].
+  destruct (shipped_segment_ok v t sn r Ht Hin Ha Hm) as [Hl [srows [-> [H3 [Hup [Hmsh [Hz [Hc Hrows]]]]]]]].
+  exists srows. split; [reflexivity|]. intros vt Hcan Hlen Hw text.
+  exact (seg_table_roundtrip_vt t e (leaf_enc v TOLERANT e) He Hst Hvar sn srows vt H3 Hup Hmsh Hz Hl Hc Hrows Hcan Hlen Hw).
+Qed.
+Print Assumptions C01_segment.
+
+(* parse_field followed by to_er7, for the field at position i of a table segment: with the
+   table's reference given (as parse_segment does) or looked up by name (parse_field(text, name)) *)
+Theorem C01_field : forall v t, tables_of v = Some t ->
+  forall e, ec_ok e ->
+  forall sn r, In (sn, r) (t_segments t) -> sn <> unbs "ANYHL7SEGMENT" -> sn <> unbs "MSH" ->
+  exists srows, r = SSeqIn false srows None /\
+  forall i row fr fv text,
+    1 <= i -> nth_error srows (pred i) = Some row -> row_ref t row = Some fr ->
+    rep_text_ok t e (leaf_enc v TOLERANT e) fr text ->
+    exists x, parse_field t TOLERANT e (leaf_enc v TOLERANT e) text (Some (name_idx sn i)) (Some fr) fv = Ok x /\
+              enc_field t e x = Ok text /\
+              (slookup (name_idx sn i) (t_fields t) = Some fr ->
+               parse_field t TOLERANT e (leaf_enc v TOLERANT e) text (Some (name_idx sn i)) None fv = Ok x).
+Proof.
+  intros v t Ht e He sn r Hin Ha Hm.
+  destruct (shipped_table_facts v t Ht) as [Hst [Hvar _]].
+  destruct (shipped_segment_ok v t sn r Ht Hin Ha Hm) as [Hl [srows [-> [H3 [Hup [Hmsh [Hz [Hc Hrows]]]]]]]].
+  exists srows. split; [reflexivity|]. intros i row fr fv text Hi Hn Hr Hok.
+  destruct (field_roundtrip t e (leaf_enc v TOLERANT e) Hst Hvar sn srows i row fr fv text H3 Hup Hmsh Hc Hrows Hi Hn Hr Hok)
+    as [x [Hp [_ Henc]]].
+  exists x. split; [exact Hp|]. split; [exact Henc|]. intros Hlk.
+  rewrite (parse_field_by_name t e (leaf_enc v TOLERANT e) text (name_idx sn i) fr fv); [exact Hp|].
+  now rewrite name_idx_upper, Hup.
+Qed.
+Print Assumptions C01_field.
+
+(* parse_component followed by to_er7, for component j of a struct datatype D that a field of a
+   table segment uses *)
+Theorem C01_component : forall v t, tables_of v = Some t ->
+  forall e, ec_ok e ->
+  forall sn r, In (sn, r) (t_segments t) -> sn <> unbs "ANYHL7SEGMENT" -> sn <> unbs "MSH" ->
+  exists srows, r = SSeqIn false srows None /\
+  forall row inf D rows j crow text,
+    In row srows -> row_ref t row = Some (SSeqDt inf) -> i_dt inf = Some D ->
+    slookup D (t_structs t) = Some rows ->
+    1 <= j -> nth_error rows (pred j) = Some crow ->
+    comp_text_ok t e (leaf_enc v TOLERANT e) crow text ->
+    exists cref c, row_ref t crow = Some cref /\
+      parse_component t TOLERANT e (leaf_enc v TOLERANT e) text (Some (name_idx D j)) None (Some cref) = Ok c /\
+      enc_comp t e c = text.
+Proof.
+  intros v t Ht e He sn r Hin Ha Hm.
+  destruct (shipped_table_facts v t Ht) as [Hst [Hvar _]].
+  destruct (shipped_segment_ok v t sn r Ht Hin Ha Hm) as [Hl [srows [-> [H3 [Hup [Hmsh [Hz [Hc Hrows]]]]]]]].
+  exists srows. split; [reflexivity|]. intros row inf D rows j crow text Hrow Hr Hdt HlD Hj Hn Hok.
+  destruct (Hrows row Hrow) as [fr [Hr' HK]]. rewrite Hr in Hr'. injection Hr' as <-.
+  destruct HK as [D' [rows' [Hdt' [HlD' Hg]]]]. rewrite Hdt in Hdt'. injection Hdt' as <-.
+  rewrite HlD in HlD'. injection HlD' as <-.
+  destruct (component_roundtrip t e (leaf_enc v TOLERANT e) Hvar D rows j crow text Hg Hj Hn Hok)
+    as [cref [c [E [Hp [_ Henc]]]]].
+  exists cref, c. auto.
+Qed.
+Print Assumptions C01_component.
+
+(* a real, non-trivial value tree for PID of v2.5: PID|1||a^^^x&&z~^b&c||n1&n2&n3&n4^g *)
+Definition pid_vt : list vfield :=
+  [ [ [ ["1" : str] ] ]; [];
+    [ [ ["a" : str]; []; []; ["x" : str; []; "z" : str] ]; [ []; ["b" : str; "c" : str] ] ];
+    [];
+    [ [ ["n1" : str; "n2" : str; "n3" : str; "n4" : str]; ["g" : str] ] ] ].
+
+Example C01_segment_example :
+  let t := Gen.Tables_v2_5.tables in
+  let lf := leaf_enc "2.5" TOLERANT default_ec in
+  canon_fields default_ec (fun _ => True) pid_vt /\ length pid_vt <= length pid_rows /\
+  (forall i vf, In (i, vf) (indexed pid_vt) -> wt_field t lf pid_rows i vf) /\
+  render_seg default_ec "PID" pid_vt = unbs "PID|1||a^^^x&&z~^b&c||n1&n2&n3&n4^g".
+Proof.
+  cbv zeta.
+  assert (L : vt_okb Gen.Tables_v2_5.tables default_ec (leaf_enc "2.5" TOLERANT default_ec) pid_rows pid_vt = true)
+    by (vm_compute; reflexivity).
+  apply vt_okb_sound in L. destruct L as [A [B C]]. split; [exact A|]. split; [exact B|]. split; [exact C|].
+  vm_compute. reflexivity.
+Qed.
